@@ -290,7 +290,7 @@ integral = st.one_of(small_int, small_int, st.integers(-40, 400), st.sampled_fro
 any_number = st.one_of(integral, integral, gv.small_numbers, gv.numbers)
 simple_elem = st.one_of(integral, gv.strings, st.none(), st.booleans())
 simple_arrays = st.lists(simple_elem, max_size=6)
-rows = st.lists(st.fixed_dictionaries({'a': st.one_of(integral, st.sampled_from(['x', 'y'])), 'b': any_number},
+rows = st.lists(st.fixed_dictionaries({'a': st.one_of(integral, st.integers(0, 3), st.sampled_from(['x', 'y', '1', '1.0', '2', '0', '2.0', 'true', 'null'])), 'b': any_number},
                                       optional={'c': st.one_of(st.none(), integral, gv.strings)}), max_size=6)
 nested = gv.values(2, st.one_of(st.none(), st.booleans(), any_number, gv.strings), 4)
 EXPRS = ['a > 1', 'b', 'a + b', 'a == b', 'a * 2', 'stringNew(a)', 'a % 2 == 0', 'n + a', 'mathFloor(b)']
@@ -412,6 +412,10 @@ def call_strategy(draw, names):
         if spec.get('lastArgArray'):
             if spec.get('schema') and crnd.random() < 0.7:
                 args.extend(SCHEMA[:crnd.choice([2, 3, 4, 7])])
+                continue
+            if spec.get('charcode') and crnd.random() < 0.3:
+                # a UTF-16 surrogate pair given as two codes (as JavaScript callers do), possibly between ordinary codes
+                args.extend(draw(st.sampled_from([[55357, 56832], [72, 55357, 56832, 33], [0xD800, 0xDC00], [56832, 55357]])))
                 continue
             for ix in range(crnd.randint(0, 4) if not spec.get('kv') else crnd.choice([0, 2, 2, 4, 4, 3])):
                 if spec.get('kv') and ix % 2 == 0 and crnd.random() < 0.9:
